@@ -14,10 +14,12 @@ def St.crashed (s : St) : Prop := ∃ e, s.status = .crashed e
 def RecordTracks (s : St) : Prop :=
   s.positions = s.srvPos ∧ s.moves = s.srvMoves ∧ s.positions.head? = some s.p
 
-/-- a transmitted move was sent when the record's current position was the server's, is legal there,
-was sent on the bot's own turn, and is the answer of a thinker started on exactly that position -/
+/-- a transmitted move was sent when the record's current position was the server's, the game was not over
+there (`Position.Move` itself does not look at that), the move is legal there, it was sent on the bot's own
+turn, and it is the answer of a thinker started on exactly that position -/
 structure GoodSend (cfg : Conf) (r : SentRec) : Prop where
   current : r.srvAt = some r.recAt
+  live : r.recAt.gameOver.1 = false
   legal : Legal cfg.basis r.recAt r.move
   onTurn : r.recAt.toMove = cfg.color
   fresh : r.tag = r.recAt
